@@ -228,6 +228,20 @@ def classify(fa, b, s):
         org = cfg.op_origin(b, size_op)
         if org and (org[0] in der or cfg.op_place(size_op)[0] in der):
             return "size derives from an in-memory length/size"
+        # one level up: the size is pure arithmetic on the parameters of a private helper and every caller passes an
+        # in-memory length/size (or a constant) for one of them (the same class, seen through an extracted helper)
+        pl = cfg.op_place(size_op)
+        if pl and str(b.d.get("vis", "")).startswith("Restricted") and not b.d.get("impl_trait"):
+            sl, calls_in, reads = cfg.backward_slice(b, [pl[0]])
+            params = sorted({p_ for p_, f in reads if f is None and not b.local_ty(p_).startswith("&")})
+            if params and not [1 for i, tt in calls_in if not cfg.is_transparent(cfg.callee(tt) or "")]:
+                ups = common.callers_of(fa, common.norm(b.npath), b.crate)
+                if ups and all(any(const_of(ub, tj["a"][p_ - 1]) is not None or (
+                        cfg.op_place(tj["a"][p_ - 1]) and (
+                            cfg.op_place(tj["a"][p_ - 1])[0] in cfg.derived_locals(ub, size_seeds(ub)) or
+                            (cfg.op_origin(ub, tj["a"][p_ - 1]) or (None,))[0] in cfg.derived_locals(ub, size_seeds(ub))))
+                        for p_ in params if p_ - 1 < len(tj["a"])) for ub, j, tj in ups):
+                    return "size is arithmetic on helper parameters; every caller (%d) passes an in-memory length/size" % len(ups)
         return None
     if kind == "overflow":
         c = cfg.op_place(t["c"])
